@@ -1271,6 +1271,7 @@ impl Kanata {
                             &mut self.kbd_out,
                             state,
                             layout,
+                            &mut self.vkeys_pending_release,
                             i,
                             j,
                             EndSequenceType::Overlap,
@@ -1324,6 +1325,7 @@ impl Kanata {
                     &self.sequences,
                     self.sequence_backtrack_modcancel,
                     layout,
+                    &mut self.vkeys_pending_release,
                 )?;
             } else {
                 log::debug!("key press     {:?}", k);
